@@ -98,7 +98,15 @@ func genC07(rng *rand.Rand, n int, emit func(Case), dist map[string]int) {
 		e := echo.New()
 		e.Logger.SetOutput(io.Discard)
 		e.Debug = rng.Intn(4) == 0
-		e.Use(middleware.RecoverWithConfig(middleware.RecoverConfig{DisablePrintStack: true}))
+		switch rng.Intn(4) {
+		case 0:
+			e.Use(middleware.Recover()) // defaults: prints the stack through the (discarded) logger
+		case 1:
+			e.Use(middleware.RecoverWithConfig(middleware.RecoverConfig{StackSize: 1 << 10, DisableStackAll: true,
+				LogErrorFunc: func(c echo.Context, err error, stack []byte) error { return err }}))
+		default:
+			e.Use(middleware.RecoverWithConfig(middleware.RecoverConfig{DisablePrintStack: true}))
+		}
 		errv, esx := genErr(0)
 		errText := errv.Error()
 		commitBefore := 0
